@@ -81,7 +81,7 @@ def renderOp (j : Json) : Except String Res := do
       | _, _ => none
     | _ => none
   let labelOk := (implOuts.zip widths).all fun (o, w) =>
-    w < 20 || (let plain := Safe.strip o
+    w < 8 || (let plain := Safe.strip o
       labels.all fun (l, t) =>
         match Safe.numberAfter l plain with
         | some k => k ≥ 1 && implLinks[k - 1]? == some t
@@ -89,7 +89,8 @@ def renderOp (j : Json) : Except String Res := do
   -- the numbers shown are 1..N, each exactly once (when nothing was cut)
   let checkNumbers := (j.getObjVal? "checknumbers").toOption == some (Json.bool true)
   let numbersOk := !checkNumbers || (implOuts.zip widths).all fun (o, w) =>
-    w < 20 || (let runs := Safe.superRuns (Safe.strip o) none
+    -- a one-digit number is a single cell and cannot be split by wrapping
+    w < 1 || (w < 8 && implLinks.length ≥ 10) || (let runs := Safe.superRuns (Safe.strip o) none
       (List.range implLinks.length).all fun i => runs.contains (i + 1))
   let preds := if isStrOut then
       [("safe_output", safeOk), ("neutral_at_line_ends", neutralOk), ("lines_within_width", widthOk),
